@@ -881,7 +881,8 @@ class ClickHouseQueryBuilder(QueryBuilder):
         return " UPDATE {set}".format(
             set=",".join(
                 "{field}={value}".format(
-                    field=field.get_sql(**dict(kwargs, with_namespace=False)), value=value.get_sql(**kwargs)
+                    field=field.get_sql(**dict(kwargs, with_namespace=False)),
+                    value=value.get_sql(**dict(kwargs, subquery=True)),
                 )
                 for field, value in self._updates
             )
